@@ -55,6 +55,7 @@ m("C07","mls-decoded-as-polygon","encoding/geojson/geojson.go","		return geom.Ne
 m("C07","properties-not-restored","encoding/geojson/geojson.go","	f.Properties = gf.Properties\n	return nil","	return nil","feature-field-coverage/encoding/geojson.Feature.Properties/unmarshal")
 m("C07","must-in-decode","encoding/geojson/geojson.go","		return geom.NewLineString(layout).SetCoords(coords)","		return geom.Must(geom.NewLineString(layout).SetCoords(coords)), nil","panic-free-decoders")
 # ---- C08
+m("C08","gc-bounds-inline-member-fold","geometrycollection.go","	b := NewBounds(g.Layout())\n	for _, g := range g.geoms {\n		b = b.Extend(g)\n	}\n	return b","	b := NewBounds(g.Layout())\n	for _, m := range g.geoms {\n		mb := m.Bounds()\n		for i := 0; i < mb.layout.Stride() && i < len(b.min); i++ {\n			b.min[i] = min(b.min[i], mb.min[i])\n			b.max[i] = max(b.max[i], mb.max[i])\n		}\n	}\n	return b","collection-bounds-through-extend/")
 m("C08","max-init-plus-inf","bounds.go","	for s := b.layout.Stride(); s < stride; s++ {\n		b.min = append(b.min, math.Inf(1))\n		b.max = append(b.max, math.Inf(-1))","	for s := b.layout.Stride(); s < stride; s++ {\n		b.min = append(b.min, math.Inf(1))\n		b.max = append(b.max, math.Inf(1))","min-max-polarity/geom.(*Bounds).extendStride")
 m("C08","m-stored-at-z","bounds.go","		b.min[3] = math.Min(b.min[3], flatCoords[i+2])\n		b.max[3] = math.Max(b.max[3], flatCoords[i+2])","		b.min[2] = math.Min(b.min[2], flatCoords[i+2])\n		b.max[2] = math.Max(b.max[2], flatCoords[i+2])","zm-index-table")
 m("C08","revert-collection-fix","bounds.go","	if gc, ok := g.(*GeometryCollection); ok {\n		for _, g := range gc.geoms {\n			b.Extend(g)\n		}\n		return b\n	}\n","","no-stub-dispatch/(*geom.Bounds).Extend")
